@@ -60,9 +60,10 @@ o P2 240102#N2 todo with prio w0
     }
 
 
-EDIT_WORD = {"edit_N1": "#N1", "edit_N2": "#N2", "edit_N3": "#N3", "edit_N4": "#N4", "edit_N5": "#N5"}
+EDIT_WORD = {"edit_N1": "#N1", "edit_N2": "#N2", "edit_N3": "#N3", "edit_N4": "#N4", "edit_N5": "#N5",
+             "edit_N6": "#N6"}
 EVENTS = list(EDIT_WORD) + ["edit_bullet", "kind_N2", "prio_N2", "add_note", "edit_header",
-                            "edit_section", "R", "D"]
+                            "edit_section", "edit_Q1", "swap_N1_U1", "R", "D"]
 
 
 def apply_edit(zd: Path, ev: str, guards: dict) -> bool:
@@ -79,6 +80,29 @@ def apply_edit(zd: Path, ev: str, guards: dict) -> bool:
                         p.write_text("\n".join(lines))
                         return True
         return False
+    if ev == "edit_Q1":
+        q = zd / "q.zo"
+        tq = q.read_text()
+        for k in (0, 1):
+            if tq.rstrip("\n").endswith(f"note q{k}") or (k == 0 and tq.rstrip("\n").endswith("untouched page note")):
+                new_end = "note q1" if k == 0 else "note q2"
+                base = tq.rstrip("\n")
+                base = base[: -len("note q1")] if k == 1 else base[: -len("note")]
+                q.write_text(base + new_end + "\n")
+                return True
+        return False
+    if ev == "swap_N1_U1":
+        # cut and paste: two notes change places, their text does not change
+        if guards.get("swapped", 0) >= 1:
+            return False
+        i1 = next((i for i, l in enumerate(lines) if "#N1" in l), None)
+        i2 = next((i for i, l in enumerate(lines) if "#U1" in l), None)
+        if i1 is None or i2 is None:
+            return False
+        guards["swapped"] = 1
+        lines[i1], lines[i2] = lines[i2], lines[i1]
+        p.write_text("\n".join(lines))
+        return True
     if ev == "edit_bullet":
         for k in (0, 1):
             if f"  * bullet b{k}" in t:
